@@ -12,7 +12,7 @@ import threading
 
 from mc.checks import stream_corpus as SC
 from mc.checks import codec_matrix as CM
-from mc.core.runner import Result, pyasn1_site, exc_text
+from mc.core.runner import guarded, Result, pyasn1_site, exc_text
 from mc.core import explore as X
 from mc.env import streams as ST
 from mc.model import x690 as M
@@ -247,7 +247,7 @@ def part_a(tier, i, n, seed, R):
                 idx += 1
                 if (idx + seed) % n != i:
                     continue
-                run_history(sc, seq, R, idx, seen_states)
+                guarded(R, lambda: run_history(sc, seq, R, idx, seen_states), {'part': 'A', 'type': sc.name, 'T': sc.T, 'v': sc.v, 'history': list(seq)}, {'A', 'type:' + sc.name}, idx)
     R.extra['states'] += len(seen_states)
 
 
@@ -654,8 +654,8 @@ def part_c(tier, i, n, seed, R):
 def shard(tier, i, n, seed):
     R = Result()
     part_a(tier, i, n, seed, R)
-    part_b(tier, i, n, seed, R)
-    part_c(tier, i, n, seed, R)
+    guarded(R, lambda: part_b(tier, i, n, seed, R), {'part': 'B'}, {'B'}, 0)
+    guarded(R, lambda: part_c(tier, i, n, seed, R), {'part': 'C'}, {'C'}, 0)
     R.extra['states'] += 0
     return R
 
